@@ -54,6 +54,35 @@ pub struct Scenario {
     #[serde(default)]
     pub fault_times: BTreeMap<usize, u32>,
     pub scheds: Vec<Sched>,
+    /// committed expectation (trace, outcome) of the three phases, for graphs of the corpus
+    #[serde(default)]
+    pub expected: Option<Vec<(Vec<String>, String)>>,
+    #[serde(default)]
+    pub name: String,
+}
+
+/// Graphs with top-level await / cycles / throws with committed per-phase traces
+/// (tools/gen_c17_expected.py): the exact oracle where the synchronous reference model stops.
+pub fn corpus() -> &'static Vec<(String, Vec<ModSpec>, usize, usize, Vec<(Vec<String>, String)>)> {
+    use std::sync::OnceLock;
+    static L: OnceLock<Vec<(String, Vec<ModSpec>, usize, usize, Vec<(Vec<String>, String)>)>> = OnceLock::new();
+    L.get_or_init(|| {
+        let v: Value = serde_json::from_str(include_str!("../../../../corpus/c17/expected.json")).expect("expected.json parses");
+        v["graphs"]
+            .as_array()
+            .expect("graphs")
+            .iter()
+            .map(|g| {
+                (
+                    g["name"].as_str().unwrap_or("").to_string(),
+                    serde_json::from_value(g["mods"].clone()).expect("mods"),
+                    g["entry"].as_u64().unwrap_or(0) as usize,
+                    g["second_entry"].as_u64().unwrap_or(0) as usize,
+                    serde_json::from_value(g["expected"].clone()).expect("expected"),
+                )
+            })
+            .collect()
+    })
 }
 
 pub fn render(i: usize, m: &ModSpec) -> String {
@@ -105,7 +134,34 @@ pub fn render(i: usize, m: &ModSpec) -> String {
     s
 }
 
+fn schedules(rng: &mut Rng, tier: Tier, n: usize) -> Vec<Sched> {
+    let ns = if tier == Tier::Quick { 3 } else { 5 };
+    (0..ns)
+        .map(|s| Sched {
+            latencies: (0..n).map(|_| if s == 0 { 0 } else { rng.below(6) as u32 }).collect(),
+            poll_order: (0..rng.range(0, 12)).map(|_| rng.below(4) as u32).collect(),
+            sim_exec: s != 1,
+        })
+        .collect()
+}
+
 pub fn generate(rng: &mut Rng, tier: Tier) -> Value {
+    if rng.chance(1, 4) {
+        let c = corpus();
+        let (name, mods, entry, second_entry, expected) = &c[rng.idx(c.len())];
+        let scheds = schedules(rng, tier, mods.len());
+        let sc = Scenario {
+            mods: mods.clone(),
+            entry: *entry,
+            second_entry: *second_entry,
+            faults: BTreeMap::new(),
+            fault_times: BTreeMap::new(),
+            scheds,
+            expected: Some(expected.clone()),
+            name: name.clone(),
+        };
+        return serde_json::to_value(sc).expect("ser");
+    }
     let n = rng.range(1, if tier == Tier::Quick { 6 } else { 8 }) as usize;
     let tla = rng.chance(2, 5);
     let throwing = rng.chance(1, 3);
@@ -149,15 +205,8 @@ pub fn generate(rng: &mut Rng, tier: Tier) -> Value {
             }
         }
     }
-    let ns = if tier == Tier::Quick { 3 } else { 5 };
-    let scheds = (0..ns)
-        .map(|s| Sched {
-            latencies: (0..n).map(|_| if s == 0 { 0 } else { rng.below(6) as u32 }).collect(),
-            poll_order: (0..rng.range(0, 12)).map(|_| rng.below(4) as u32).collect(),
-            sim_exec: s != 1,
-        })
-        .collect();
-    let sc = Scenario { mods, entry, second_entry, faults, fault_times, scheds };
+    let scheds = schedules(rng, tier, n);
+    let sc = Scenario { mods, entry, second_entry, faults, fault_times, scheds, expected: None, name: String::new() };
     serde_json::to_value(sc).expect("ser")
 }
 
@@ -552,6 +601,20 @@ pub fn execute(v: &Value) -> RunReport {
                 rep.violate("evaluation-order-second-entry", format!("{tag}: model starts {s2:?} {r2}, engine {g2:?} {}; trace {all:?}", o.phases[2].1));
             }
         }
+        // (a') committed expectation for graphs of the corpus (top-level await, cycles, throws)
+        if let Some(exp) = &sc.expected {
+            rep.probe("corpus_graph_checked", 1);
+            for (pi, (etrace, eout)) in exp.iter().enumerate() {
+                let Some((gtrace, gout)) = o.phases.get(pi) else { break };
+                if gtrace != etrace || gout != eout {
+                    rep.violate(
+                        "evaluation-order-corpus",
+                        format!("{tag}: {} phase {pi}: expected {etrace:?} {eout}, engine {gtrace:?} {gout}", sc.name),
+                    );
+                    break;
+                }
+            }
+        }
         // cross-schedule equality: evaluation does not depend on load order
         if !any_fault && !any_dynamic {
             match &first {
@@ -610,6 +673,10 @@ pub fn shrink(v: &Value) -> Vec<Value> {
             s.scheds.remove(i);
             out.push(s);
         }
+    }
+    if sc.expected.is_some() {
+        // the committed expectation belongs to this very graph: only schedules can be dropped
+        return out.into_iter().map(|s| serde_json::to_value(s).expect("ser")).collect();
     }
     // remove a module (retarget edges)
     let n = sc.mods.len();
